@@ -1,7 +1,7 @@
 //! Which engines/profiles decide which property, with fixed run counts per tier (not time budgets),
 //! so that the evidence of a tier is itself reproducible.
 
-use crate::runner::{run_part, Part, Plan, DEFAULT_SEED};
+use crate::runner::{run_part, MiriSpec, Part, Plan, DEFAULT_SEED};
 use std::time::Duration;
 
 fn p(engine: &'static str, profile: &'static str, quick: u64, thorough: u64) -> Part {
@@ -27,96 +27,112 @@ pub fn plan(prop: &str) -> Option<Plan> {
                 p("worldsim", "parallel", 18_000, 600_000),
             ],
             cross_process: false,
+            miri: vec![],
             assumptions: vec![A_SAMPLING, A_MODEL, A_SC],
         },
         "C02" => Plan {
             level: "exploration",
             parts: vec![p("worldsim", "lifecycle", 160_000, 4_500_000), p("worldsim", "churn", 32_000, 900_000)],
             cross_process: false,
+            miri: vec![],
             assumptions: base,
         },
         "C17" => Plan {
             level: "exploration",
-            parts: vec![p("worldsim", "churn", 120_000, 3_000_000), p("worldsim", "lifecycle", 80_000, 1_500_000)],
+            parts: vec![p("worldsim", "churn", 120_000, 3_000_000), p("worldsim", "lifecycle", 80_000, 1_500_000), p("worldsim", "faults", 30_000, 300_000)],
             cross_process: false,
+            miri: vec![],
             assumptions: base,
         },
         "C03" => Plan {
             level: "exploration",
             parts: vec![p("worldsim", "stale", 240_000, 6_000_000), p("worldsim", "restricted", 80_000, 1_500_000)],
             cross_process: false,
+            miri: vec![],
             assumptions: base,
         },
         "C04" => Plan {
             level: "exploration",
             parts: vec![p("worldsim", "storage", 240_000, 7_500_000)],
             cross_process: false,
+            miri: vec![],
             assumptions: base,
         },
         "C05" => Plan {
             level: "exploration",
             parts: vec![p("worldsim", "purge", 200_000, 4_500_000)],
             cross_process: false,
+            miri: vec![],
             assumptions: base,
         },
         "C08" => Plan {
             level: "exploration",
-            parts: vec![p("worldsim", "values", 200_000, 4_500_000)],
+            parts: vec![p("worldsim", "values", 200_000, 4_500_000), p("worldsim", "faults", 30_000, 300_000)],
             cross_process: false,
+            miri: vec![MiriSpec { args: vec!["values"], seeds: 1 }],
             assumptions: base,
         },
         "C09" => Plan {
             level: "exploration",
             parts: vec![p("worldsim", "lazy", 240_000, 6_000_000)],
             cross_process: false,
+            miri: vec![],
             assumptions: base,
         },
         "C12" => Plan {
             level: "exploration",
-            parts: vec![p("worldsim", "tracked", 240_000, 6_000_000)],
+            parts: vec![p("worldsim", "tracked", 240_000, 6_000_000), p("worldsim", "trackedfaults", 30_000, 400_000)],
             cross_process: false,
+            miri: vec![],
             assumptions: base,
         },
         "C13" => Plan {
             level: "exploration",
             parts: vec![p("worldsim", "restricted", 240_000, 6_000_000), p("joinsim", "restricted", 6_000, 240_000)],
             cross_process: false,
+            miri: vec![],
             assumptions: base,
         },
         "C10" => Plan {
             level: "exploration",
             parts: vec![p("worldsim", "parallel", 90_000, 3_000_000)],
             cross_process: false,
+            miri: vec![MiriSpec { args: vec!["par", "2", "2", "4"], seeds: 32 }, MiriSpec { args: vec!["par", "1", "3", "3"], seeds: 16 }],
             assumptions: vec![A_SAMPLING, A_MODEL, A_SC],
         },
         "C19" => Plan {
             level: "fault_enumeration",
             parts: vec![p("worldsim", "faults", 150_000, 1_500_000)],
             cross_process: false,
+            miri: vec![MiriSpec { args: vec!["faults"], seeds: 1 }],
             assumptions: vec![A_SAMPLING, A_MODEL, "one destructor fault is armed at a time and disarms when it fires (a second panic while unwinding aborts the process and says nothing about the property); faults are addressed by value identity, never by destructor call order (hash-map drop order is per-process)"],
         },
         "C07" => Plan {
             level: "exploration",
             parts: vec![p("joinsim", "mixed", 12_000, 450_000), p("joinsim", "readonly", 3_000, 90_000)],
             cross_process: false,
+            miri: vec![],
             assumptions: vec![A_SAMPLING, "mode A's seeded split tree is a superset of the trees rayon can produce; mode B runs rayon's real bridge for an N-thread pool without steals", "visibility of worker writes after par_join returns is rayon's join guarantee, not specs code; checked here on the single running thread"],
         },
         "C11" => Plan {
             level: "exploration",
-            parts: vec![p("dispatchsim", "default", 60_000, 1_800_000)],
+            parts: vec![p("dispatchsim", "default", 40_000, 1_500_000)],
             cross_process: false,
+            miri: vec![],
             assumptions: vec![A_SAMPLING, "shred's Stage::execute (rayon par_iter_mut over the groups of a stage) is replaced by baton tasks; the baton policies range from one group at a time to all groups interleaved at every step, which covers every pool size", "exactly-once and dependency order are statements about shred's planner (outside /repo); they are checked because they are cheap"],
         },
         "C15" => Plan {
             level: "exploration",
             parts: vec![p("savesim", "default", 900_000, 12_000_000)],
             cross_process: false,
+            miri: vec![],
             assumptions: vec![A_SAMPLING, "the data handed to a load is parsed independently (serde types only, none of the loader's logic) to know what it says", "generator contract of the plain serialiser: a reference to an entity without marker makes the save fail (our Link conversion returns Err instead of unwrapping)", "SimpleMarker only; UuidMarker ids are OS-random by design and are not exercised"],
         },
         "C20" => Plan {
             level: "exploration",
-            parts: vec![p("twin", "world", 36_000, 1_200_000), p("twin", "save", 36_000, 1_200_000)],
+            parts: vec![p("twin", "world", 36_000, 1_200_000), p("twin", "save", 36_000, 1_200_000), p("twin", "faults", 6_000, 100_000)],
             cross_process: true,
+            miri: vec![],
             assumptions: vec![A_SAMPLING, "destructor order inside HashMapStorage::clear / world teardown and UuidMarker values are not part of the transcript (hash order / OS randomness by construction, and not among the observables the property lists)", "ahash's per-process random keys have no seam; they are varied by re-executing in other processes"],
         },
         _ => return None,
@@ -145,6 +161,8 @@ pub fn selftest(runs: u64) -> i32 {
         ("savesim", "default"),
         ("twin", "world"),
         ("twin", "save"),
+        ("twin", "faults"),
+        ("worldsim", "trackedfaults"),
     ] {
         let part = p(engine, profile, runs, runs);
         let a = run_part("", &part, runs, DEFAULT_SEED, 16, Duration::from_secs(600), true);
